@@ -390,6 +390,50 @@ def r10_opt_closures(text):
         new = f'(match {recv} {{ Some({m.group(3)}) => {body}, None => {dflt} }})'
         text = text[:m.start()] + new + text[cl + 1:]
         cnt += 1
+    text, k = r10_opt_filter(text)
+    return text, cnt + k
+
+
+def r10_opt_filter(text):
+    """`RECV.filter(|&x| BODY)` on an Option  ->  `(match RECV { Some(x) => if BODY { Some(x) } else { None }, None => None })`.
+    RECV is a field path or one call `path(args)`; a receiver that is visibly an iterator chain is left alone.  A wrong guess (an iterator
+    the rule did not recognise) does not type-check as a `match` on Some/None, so it ends as a front-end error, never as a verdict."""
+    cnt = 0
+    pos = 0
+    pat = re.compile(r'\s*\.\s*filter\(\s*\|&(\w+)\|\s*')
+    while True:
+        m = pat.search(text, pos)
+        if not m:
+            break
+        pos = m.end()
+        # receiver: scan backwards
+        j = m.start()
+        k = j
+        if k > 0 and text[k - 1] == ')':
+            d = 0
+            while k > 0:
+                k -= 1
+                if text[k] == ')':
+                    d += 1
+                elif text[k] == '(':
+                    d -= 1
+                    if d == 0:
+                        break
+        while k > 0 and (text[k - 1].isalnum() or text[k - 1] in '_.:'):
+            k -= 1
+        recv = text[k:j]
+        if not recv or re.search(r'\b(iter|iter_mut|into_iter|keys|values|copied|cloned|enumerate|map|filter|filter_map|chars|bytes|lines|rev|zip|skip|take)\(', recv.split('(')[0] + '(' if '(' in recv else ''):
+            continue
+        if re.search(r'\.(iter|iter_mut|into_iter|keys|values|copied|cloned|enumerate|chars|bytes|lines|rev)\(\)\s*$', recv):
+            continue
+        op = text.index('(', m.start() + text[m.start():].index('filter'))
+        cl = match_bracket(text, op, '(', ')')
+        body = text[m.end():cl].strip()
+        x = m.group(1)
+        new = f'(match {recv.strip()} {{ Some({x}) => if {body} {{ Some({x}) }} else {{ None }}, None => None }})'
+        text = text[:k] + new + text[cl + 1:]
+        pos = k + len(new)
+        cnt += 1
     return text, cnt
 
 
